@@ -85,7 +85,10 @@ class LifetimeTag {
 
     inline Watcher() { }
     inline Watcher(const LifetimeTag &tag) : d_(tag.d_) { ++d_->watcher_counter; }
-    inline Watcher(const Watcher &other) : d_(other.d_) { ++d_->watcher_counter; }
+    inline Watcher(const Watcher &other) : d_(other.d_) {
+      if (d_ != nullptr)  //! other may be a default-constructed, moved-from or reset watcher
+        ++d_->watcher_counter;
+    }
     inline Watcher(Watcher &&other) : d_(other.d_) { other.d_ = nullptr; }
 
     Watcher& operator = (const LifetimeTag &tag) {
@@ -99,7 +102,8 @@ class LifetimeTag {
       if (this != &other) {
         reset();
         d_ = other.d_;
-        ++d_->watcher_counter;
+        if (d_ != nullptr)
+          ++d_->watcher_counter;
       }
       return *this;
     }
